@@ -44,6 +44,8 @@ type scenario struct {
 	Mutate    int
 	MoreAttrs []vlib.ExpAttr
 	Call2     []vlib.ExpAttr
+	// Pkg: the call is made through the package-level function of the same name, the logger being the default logger
+	Pkg bool
 	// ViaSkip[i]: logger i of the chain (i > 0) is made by WithSkip(1) on its parent instead of New(name)
 	ViaSkip []bool
 	// AncestorCtxKeys: the ancestors have a context key of their own ("anck") and the context holds a value for
@@ -126,7 +128,8 @@ func genScenario(t *rapid.T) scenario {
 	default:
 		sc.Call = genList(t, 31, 64, 0)
 	}
-	sc.Verb = rapid.IntRange(0, 2).Draw(t, "verb")
+	sc.Verb = rapid.IntRange(0, 3).Draw(t, "verb")
+	sc.Pkg = rapid.IntRange(0, 3).Draw(t, "viaPackageLevelFunction") == 0
 	sc.FlagsHow = rapid.SampledFrom([]int{0, 0, 1, 2, 3, 4}).Draw(t, "flagsHow")
 	sc.Disturb = rapid.SampledFrom([]int{0, 0, 0, 1, 2, 3, 4, 5, 6}).Draw(t, "disturbance")
 	if rapid.IntRange(0, 3).Draw(t, "commonAttrs1") == 0 {
@@ -321,15 +324,46 @@ func run(t *rapid.T, test string, sc scenario) {
 					t.Fatalf("C07 call panicked: %v", p)
 				}
 			}()
+			if sc.Pkg {
+				slog.SetDefault(lg) // Canon puts the original default logger back
+			}
 			switch {
+			case sc.CtxMode == "plain" && sc.Pkg:
+				switch sc.Verb {
+				case 0:
+					slog.Info(msg, callArgs...)
+				case 1:
+					slog.Warn(msg, callArgs...)
+				case 2:
+					slog.Print(msg, callArgs...)
+				default:
+					slog.Println(append([]any{msg}, callArgs...)...)
+				}
 			case sc.CtxMode == "plain":
 				switch sc.Verb {
 				case 0:
 					lg.Info(msg, callArgs...)
 				case 1:
 					lg.Warn(msg, callArgs...)
-				default:
+				case 2:
 					lg.Print(msg, callArgs...)
+				default:
+					lg.Println(append([]any{msg}, callArgs...)...)
+				}
+			case sc.Pkg:
+				c := ctx
+				if sc.CtxMode == "nil" {
+					c = nil
+				}
+				switch sc.Verb {
+				case 0:
+					slog.InfoContext(c, msg, callArgs...) //nolint:staticcheck // nil context on purpose
+				case 1:
+					slog.WarnContext(c, msg, callArgs...) //nolint:staticcheck
+				case 2:
+					slog.PrintContext(c, msg, callArgs...) //nolint:staticcheck
+				default:
+					slog.PrintlnContext(c, msg, callArgs...) //nolint:staticcheck
 				}
 			default:
 				c := ctx
@@ -341,8 +375,10 @@ func run(t *rapid.T, test string, sc scenario) {
 					lg.InfoContext(c, msg, callArgs...) //nolint:staticcheck // nil context on purpose
 				case 1:
 					lg.LogAttrs(c, slog.WarnLevel, msg, callArgs...) //nolint:staticcheck
-				default:
+				case 2:
 					lg.PrintContext(c, msg, callArgs...) //nolint:staticcheck
+				default:
+					lg.PrintlnContext(c, msg, callArgs...) //nolint:staticcheck
 				}
 			}
 		}()
@@ -351,7 +387,7 @@ func run(t *rapid.T, test string, sc scenario) {
 			t.Fatalf("C07 harness expectation: exactly one record, got %d", len(writes))
 		}
 		payload := writes[0].Payload
-		lvlName := []string{"info", "warning", "always"}[sc.Verb]
+		lvlName := []string{"info", "warning", "always", "always"}[sc.Verb]
 		exp := vlib.ExpRecord{LoggerName: name, LevelName: lvlName, Msg: msg, Attrs: sources, TimeLayout: "15:04:05.000000Z07:00"}
 		desc := fmt.Sprintf("record #%d format=%s inherit=%v ctxmode=%s ctxkeys=%+v common=[%s] chain=[%s] call=[%s]", round, sc.Format, sc.Inherit, sc.CtxMode, sc.CtxKeys, vlib.Describe(sc.Common), describeChain(chain), vlib.Describe(call))
 		sig := "C07/assembly"
